@@ -105,6 +105,18 @@ def ancestors(spec, i):
     return seen
 
 
+def descendants(spec, i):
+    n = len(spec["nodes"])
+    seen, stack = set(), [i]
+    while stack:
+        j = stack.pop()
+        for c in range(n):
+            if j in spec["nodes"][c]["u"] and c not in seen:
+                seen.add(c)
+                stack.append(c)
+    return seen
+
+
 def oracle(spec, run, pid=ID, failed_jobs=()):
     v = []
     inputs, outputs = local.node_io(spec, run.log)
@@ -119,8 +131,10 @@ def oracle(spec, run, pid=ID, failed_jobs=()):
         # a tick source (timed_window emits a batch every interval for ever) feeding a slower
         # delay/rate_limit builds an unbounded backlog: the bounded finish phase cannot drain it
         chain = {spec["nodes"][a]["k"] for a in ancestors(spec, i)} | {nd["k"]}
-        if chain & {"timed_window", "timed_window_unique"} and chain & {"delay", "rate_limit"}:
-            complete = False
+        below = {spec["nodes"][d]["k"] for d in descendants(spec, i)}
+        if chain & {"timed_window", "timed_window_unique"} and \
+                (chain | below) & {"delay", "rate_limit"}:
+            complete = False   # (a slow node below holds this one back through back-pressure)
         v += local.check_node(pid, spec, i, inputs[i], outputs[i], complete=complete)
     for idx, rid in run.log.mutated():
         v.append(("%s:%s:batch-mutated-after-emission" % (pid, spec["nodes"][rid]["k"]),
